@@ -31,6 +31,8 @@ for d in sys.argv[1:]:
     history = old_meta.get("history", "")
     was_missed = old_meta.get("checks_run", {}).get("detected") is False
     now_detected = any(r.get("rc") == 1 for r in results)
+    if ev.get("first_eval_missed_by_own_check") and now_detected and not history:
+        history = "missed by the property's own check as first evaluated (exit 0); caught after that check was strengthened for the class of the miss (see notes/%s.md)" % prop
     if was_missed and now_detected and not history:
         history = "missed by the check as first built (exit 0); caught after the check was strengthened for the class of the miss (see notes/%s.md)" % prop
     meta = {
@@ -38,7 +40,7 @@ for d in sys.argv[1:]:
         "breaks_property": prop,
         "summary": summary,
         "history": history,
-        "origin": "independent sub-agent given only the property text and a scratch worktree (nothing from /verif)" + (" - second round, told which sites the first round had used" if os.environ.get("SEED_ID_OFFSET") else ""),
+        "origin": "independent sub-agent given only the property text and a scratch worktree (nothing from /verif)" + ({"2": " - second round, told which sites the first round had used", "4": " - third round, told which sites rounds 1-2 had used and pointed at the glue code"}.get(os.environ.get("SEED_ID_OFFSET", ""), "")),
         "needs_to_manifest": needs or "see README.md",
         "confirmed_by_me": {
             "how": "tools/seed_verify.sh in scratch worktree /tmp/seed-verify-wt: demo.rs as tests/seed_demo_*.rs without the patch (must pass), with the patch (must fail), then the full existing suite with the patch (cargo nextest, must be 691 passed)",
